@@ -6,6 +6,9 @@ import Mutagen.Proofs.Lifecycle4
 import Mutagen.Proofs.Lifecycle5
 import Mutagen.Proofs.Lifecycle6
 import Mutagen.Proofs.Lifecycle7
+import Mutagen.Proofs.Lifecycle8
+import Mutagen.Proofs.Lifecycle9
+import Mutagen.Proofs.Lifecycle10
 /-!
 # C29 — session lifecycle commands take effect exactly as documented
 
@@ -253,5 +256,65 @@ theorem reset_clears_history_before_return {w : Bool} {tr : List Label} {s s' : 
   obtain ⟨⟨th, hth, h1, h2, h3⟩, _⟩ := ret_source st
   obtain ⟨tr1, s1, tr2, r1, r2, e, ha, y, hy, hy1, hy2, _⟩ := reset_cleared r th hth h2 h3
   exact ⟨tr1, s1, tr2, r1, r2, e, ha, y, hy, hy1.trans h1, hy2⟩
+
+/-- **A waiting flush succeeds only after a complete full cycle for its own
+request.** In every run, when a waiting `flush` call returns successfully, its
+ghost record says: the run loop received its request, then started a *full*
+scan on alpha and on beta while serving it (`fullA`, `fullB` are set only by
+the `scanS … full=true` events of the loop while it serves this call's request,
+and are false when the call is issued), both scans ended successfully after
+that (`okA`, `okB` are set only by the `scanE … ok` events, to the value of
+`fullA`/`fullB` at that time), and the loop went through the rest of the cycle
+to the point where it saves the ancestor and answers the request. -/
+theorem flush_wait_sound {w : Bool} {tr : List Label} {s s' : State} {t : Nat}
+    (r : Run (init w) tr s) (st : Step s (.ret t (.flush true) .ok) s') :
+    ∃ x ∈ s.threads, x.id = t ∧ x.answered = true ∧
+      x.fullA = true ∧ x.fullB = true ∧ x.okA = true ∧ x.okB = true := by
+  obtain ⟨⟨th, hth, h1, h2, h3⟩, _⟩ := ret_source st
+  have i := invF_run r
+  have ha := i.done th hth h2 h3
+  obtain ⟨b1, b2, b3, b4⟩ := i.ans th hth ha
+  exact ⟨th, hth, h1, ha, b1, b2, b3, b4⟩
+
+/-- While the loop serves the request of a call that is still in flight: in the
+scanning phase the scans are forced (full), and the staging / transition phases
+are reached only with both full scans started and successfully ended. -/
+theorem serving_a_flush_means_full_scans {w : Bool} {tr : List Label} {s : State} (r : Run (init w) tr s)
+    {l : Loop} {t : Nat} (hl : s.loop = some l) (hr : l.req = some t) {x : Thread} (hx : x ∈ s.threads)
+    (hid : x.id = t) :
+    (l.pc = .scan → l.forced = true) ∧
+    ((l.pc = .stageA ∨ l.pc = .supB ∨ l.pc = .stageB ∨ l.pc = .supA ∨ l.pc = .trans) →
+      x.fullA = true ∧ x.fullB = true ∧ x.okA = true ∧ x.okB = true) := by
+  have i := invF_run r
+  exact ⟨fun hpc => ((i.serving l t hl hr x hx hid).1 hpc).1, (i.serving l t hl hr x hx hid).2⟩
+
+/-- **A pause survives a manager restart.** In every run, when a manager
+restart (Shutdown + NewManager) returns with the `Paused` flag on disk, the
+session is registered with the new manager, its controller is enabled, holds no
+lock and runs no loop: the session is still paused (and by
+`paused_session_is_silent` nothing happens at its endpoints until a resume),
+and a later `resume` will find it. -/
+theorem pause_survives_restart {w : Bool} {tr : List Label} {s s' : State} {t : Nat}
+    (r : Run (init w) tr s) (st : Step s (.ret t .restart .ok) s') (hp : s.sess = some true) :
+    s'.sess = some true ∧ s'.entry = true ∧ s'.disabled = false ∧ s'.running = false ∧
+    s'.loop = none ∧ s'.crit = none := by
+  obtain ⟨⟨th, hth, _, h2, h3⟩, hs'⟩ := ret_source st
+  obtain ⟨_, hpi⟩ := invRs_run r th hth h2 h3
+  obtain ⟨h1, h2', h3', h4, h5⟩ := hpi hp
+  subst hs'
+  exact ⟨hp, h1, h2', h3', h4, h5⟩
+
+/-! Non-vacuity: a run in which a `pause` returns successfully (a session is
+created paused and paused again), with the `Paused` flag on disk. -/
+
+example : ∃ tr s s', Run (init false) tr s ∧ Step s (.ret 2 .pause .ok) s' ∧ s.sess = some true := by
+  have r0 : Run ex0 [] ex0 := Run.nil
+  have r1 := Run.snoc r0 (Step.call (t := 1) (op := .create true) (s' := ex1) (by decide))
+  have r2 := Run.snoc r1 (Step.internal (l := .tau) (s' := ex2) (by decide))
+  have r3 := Run.snoc r2 (Step.internal (l := .ret 1 (.create true) .ok) (s' := ex3) (by decide))
+  have r4 := Run.snoc r3 (Step.call (t := 2) (op := .pause) (s' := ex4) (by decide))
+  have r5 := Run.snoc r4 (Step.internal (l := .tau) (s' := ex5) (by decide))
+  have r6 := Run.snoc r5 (Step.internal (l := .tau) (s' := ex6) (by decide))
+  exact ⟨_, ex6, ex7, r6, Step.internal (by decide), by decide⟩
 
 end Mutagen.Properties.C29
